@@ -20,7 +20,7 @@ FAMILIES = {
     "subslot": dict(G=[3600, 3600, 1800, 900, 300], efforts=[7, 10, 20, 25, 45, 50, 90, 100, 135, 200, 61, 119],
                     effs=["1.0", "1.0", "0.5", "0.7", "1.5", "2.0", "0.9", "1.3"], team=0.25, alt=0.15, nres=(1, 2), ntasks=(2, 8),
                     gap=[0, 0, 0, 10, 30, 45, 90], dep=0.6, rleave=0.05, vac=0.05, gleave=0.15, prio=0.6, rdaily=0.1),
-    "hours": dict(rbook=0.3, hours=0.6, shift=0.3, tz=0.5, xmid=0.4, rleave=0.3, vac=0.2, gleave=0.3, efforts=[120, 480, 960, 1440],
+    "hours": dict(rbook=0.3, hours=0.6, shift=0.3, tz=0.5, xmid=0.4, rleave=0.3, vac=0.45, gleave=0.3, efforts=[120, 480, 960, 1440],
                   starts=[MON, 1741305600, 1761523200, 1743292800 - 86400 * 6], G=[3600, 3600, 1800, 900], dur=[("w", 4)], ntasks=(1, 4)),
     "limits": dict(rdaily=0.6, rweekly=0.5, gdaily=0.4, tdaily=0.4, tweekly=0.3, tlimres=0.3, group=0.6, nest=0.5, team=0.2,
                    efforts=[240, 480, 960, 1920, 2400], dur=[("w", 1), ("d", 13), ("w", 3)], ntasks=(1, 5),
@@ -122,6 +122,11 @@ def gen(rng, cfg):
     if rng.random() < cfg["vac"]:
         a = day0 + rng.randint(0, 9) * 86400
         ap["vac"].append((a, None if rng.random() < 0.5 else a + rng.randint(1, 3) * 86400))
+    if ap["vac"] and rng.random() < 0.5:
+        # a second and third holiday, written out of chronological order
+        for _ in range(rng.randint(1, 2)):
+            a = day0 + rng.randint(0, 12) * 86400
+            ap["vac"].insert(rng.randrange(len(ap["vac"]) + 1), (a, None if rng.random() < 0.6 else a + rng.randint(1, 2) * 86400))
     if rng.random() < cfg.get("straddle", 0.0):
         # (year-end starts are Mondays nine days before 31 December) a vacation that begins in the old year
         # and ends in the new one
@@ -154,7 +159,7 @@ def gen(rng, cfg):
         if rng.random() < cfg["rbook"]:
             # a blocking booking of the resource: calendar time from a date, in every unit the grammar knows
             a = day0 + rng.randint(0, 9) * 86400 + rng.choice([0, 9, 11, 13]) * 3600
-            mins, txt = rng.choice([(120, "2h"), (360, "6h"), (90, "90min"), (1440, "1d"), (2880, "2d"), (10080, "1w"), (20160, "2w")])
+            mins, txt = rng.choice([(120, "2h"), (360, "6h"), (90, "90min"), (1440, "1d"), (2880, "2d"), (10080, "1w"), (20160, "2w"), (30.4167 * 1440, "1m")])
             r["bookings"] = [(a, mins, txt)]
         if rng.random() < cfg["rdaily"]:
             r["dailymax"] = rng.choice([60, 120, 240, 360]) if G <= 3600 else 120
